@@ -9,6 +9,7 @@ import dets
 import gen
 from common import Outcome, np, rng_for
 
+RULE_ADDENDA = ('variances 1e-4 ... 50; a 1 100-1 400 update stream vs a renormalised forward recursion; the table read only after the stream / after an unread prefix + reset; BOCD() with every default')
 LEVEL = "proof"
 SHRINK_KEYS = ("stream",)
 EXPLANATION = ("Theorems (Lean, reals): closed-form sufficient statistics, forward recursion, equality with the sum over all changepoint configurations, "
